@@ -79,3 +79,6 @@ func errStr(err error) string {
 	}
 	return err.Error()
 }
+
+type apdBigInt = apd.BigInt
+type apdRounder = apd.Rounder
